@@ -3,6 +3,7 @@ package main
 
 import (
 	"bufio"
+	"bytes"
 	"context"
 	"encoding/json"
 	"flag"
@@ -312,6 +313,9 @@ func cmdRace(args []string) {
 				att[id]++
 				k := att[id]
 				mu.Unlock()
+				if p.Buf {
+					fmt.Fprintf(dag.Stdout(ctx), "%s:%d;", id, k) // private per-attempt buffer, flushed by Run under its own mutex
+				}
 				time.Sleep(time.Duration(r0(k)) * time.Microsecond)
 				*data[id] = sum + 1 // plain write before returning
 				o := "nil"
@@ -334,6 +338,10 @@ func cmdRace(args []string) {
 		}
 		if p.Serial {
 			g.SetSerial()
+		}
+		var sink bytes.Buffer // NOT safe for concurrent use: only Run's buffer mutex keeps the flushes apart
+		if p.Buf {
+			g.SetOutputBuffer(&sink)
 		}
 		for _, o := range p.History {
 			switch o.Op {
